@@ -261,7 +261,8 @@ Definition copy_with_new_str (f : fmtstr) (s : str) : fmtstr :=
   [mkChunk s (fold_left att_extend (map c_a f) no_atts)].
 
 (* shared_atts: for att in sorted(first.atts):
-     if all(fs.atts.get(att, "???") == first.atts[att] for fs in self.chunks if len(fs) > 0) *)
+     if all(fs.atts.get(att, "???") == first.atts[att] for fs in self.chunks if len(fs) > 0)
+   where first is the first non-empty run (the first run if all are empty) *)
 Definition nonempty_agree {X} (eqb : X -> X -> bool) (get : atts -> option X) (f : fmtstr) (v : X) : bool :=
   forallb (fun c => match c_s c with [] => true | _ :: _ => opt_eqb eqb (get (c_a c)) (Some v) end) f.
 Definition shared_field {X} (eqb : X -> X -> bool) (get : atts -> option X) (first : chunk) (f : fmtstr) : option X :=
@@ -269,15 +270,22 @@ Definition shared_field {X} (eqb : X -> X -> bool) (get : atts -> option X) (fir
   | Some v => if nonempty_agree eqb get f v then Some v else None
   | None => None
   end.
-Definition shared_atts (f : fmtstr) : res atts :=
-  match f with
-  | [] => Raise IndexError                            (* self.chunks[0] *)
-  | first :: _ =>
-      Ok (mkAtts (shared_field color_eqb a_fg first f) (shared_field color_eqb a_bg first f)
-                 (shared_field Bool.eqb a_bold first f) (shared_field Bool.eqb a_dark first f)
-                 (shared_field Bool.eqb a_italic first f) (shared_field Bool.eqb a_underline first f)
-                 (shared_field Bool.eqb a_blink first f) (shared_field Bool.eqb a_invert first f))
+(*  nonempty = [fs for fs in self.chunks if len(fs) > 0]
+    first = nonempty[0] if nonempty else self.chunks[0]                          *)
+Definition first_run (f : fmtstr) : res chunk :=
+  match filter (fun c => match c_s c with [] => false | _ :: _ => true end) f with
+  | c :: _ => Ok c
+  | [] => match f with
+          | c :: _ => Ok c
+          | [] => Raise IndexError                     (* self.chunks[0] *)
+          end
   end.
+Definition shared_atts (f : fmtstr) : res atts :=
+  bind (first_run f) (fun first =>
+    Ok (mkAtts (shared_field color_eqb a_fg first f) (shared_field color_eqb a_bg first f)
+               (shared_field Bool.eqb a_bold first f) (shared_field Bool.eqb a_dark first f)
+               (shared_field Bool.eqb a_italic first f) (shared_field Bool.eqb a_underline first f)
+               (shared_field Bool.eqb a_blink first f) (shared_field Bool.eqb a_invert first f))).
 
 (* ---- fmtstr() ---------------------------------------------------------------------------- *)
 Inductive strarg := SStr (s : str) | SFmt (f : fmtstr) | SOther.   (* the first argument *)
